@@ -64,7 +64,8 @@ type gen struct {
 	nCmd     int
 	nLabel   int
 	labels   []string
-	hot      []string     // labels written right after a break / end / return / goto
+	hot      []string // labels written right after a break / end / return / goto
+	usedCaps map[string]bool
 	gotos    []*model.Cmd // goto/call commands whose target is resolved at the end
 	left     int
 	texts    []string
@@ -387,7 +388,7 @@ func (g *gen) plainArg() model.Arg {
 	case 4:
 		return model.Arg{Toks: []string{"BASE", "+", fmt.Sprint(r.Intn(9))}}
 	case 5:
-		return model.Arg{Toks: []string{fmt.Sprintf("0x%X", r.Intn(255))}}
+		return model.Arg{Toks: []string{fmt.Sprintf([]string{"0x%X", "0x%x"}[r.Intn(2)], r.Intn(65535))}}
 	}
 	return model.Arg{Toks: []string{"(", "A", "+", "1", ")", "*", "2"}}
 }
@@ -660,6 +661,16 @@ func (g *gen) block(depth int, ctx bctx, brace bool) []*model.Stmt {
 		case 6:
 			g.nLabel++
 			l := fmt.Sprintf("L%d", g.nLabel)
+			if r.P(0.06) {
+				// an all-caps identifier that spells a keyword is an ordinary identifier
+				if n := capsPool[r.Intn(len(capsPool))]; !g.usedCaps[n] {
+					if g.usedCaps == nil {
+						g.usedCaps = map[string]bool{}
+					}
+					g.usedCaps[n] = true
+					l = n
+				}
+			}
 			g.labels = append(g.labels, l)
 			s := &model.Stmt{K: model.KLabel, Label: l}
 			if r.P(0.2) {
@@ -764,8 +775,8 @@ func (g *gen) switchStmt(depth int, ctx bctx) *model.Stmt {
 				}
 			}
 			cs.Value = fmt.Sprint(v)
-			if r.P(0.1) {
-				cs.Value = fmt.Sprintf("0x%X", v)
+			if r.P(0.15) {
+				cs.Value = fmt.Sprintf([]string{"0x%X", "0x%x", "0x%02x"}[r.Intn(3)], v)
 			}
 		}
 		if !r.P(c.PEmptyCase) {
@@ -1160,3 +1171,5 @@ func StressFile(r *rng.R, c *Config) *model.File {
 	}
 	return g.f
 }
+
+var capsPool = []string{"DEFAULT", "CASE", "BREAK", "CONTINUE", "IF", "ELSE", "ELIF", "DO", "WHILE", "SWITCH", "SCRIPT", "TEXT", "RAW", "VAR", "FLAG", "VALUE", "MOVES", "FORMAT", "GLOBAL", "LOCAL", "END", "RETURN", "PORYSWITCH", "CONST", "Default", "Case"}
